@@ -104,7 +104,13 @@ class Runtime {
       m(N, name, v) { self.rec('m', [name, v]); set(N, 'm', name, { v }) },
       r(N, name, v, modelPath, generalPath) {
         self.rec('r', [name, v, modelPath, generalPath])
-        set(N, 'r', name, { v, model: modelPath, lv: generalPath })
+        // as the runtime: the model-binding listener is only replaced when a path (or null) is given
+        let model = modelPath
+        if (model === undefined && N && N.attrs) {
+          const old = N.attrs.find((a) => a[0] === 'r:' + name)
+          if (old) model = old[1].model
+        }
+        set(N, 'r', name, { v, model, lv: generalPath })
       },
       a(N, name, v) { self.rec('a', [name, v]); set(N, 'a', name, { v }) },
       wl(N, name, v) { self.rec('wl', [name, v]); set(N, 'wl', name, { v }) },
